@@ -603,6 +603,9 @@ func init() {
 				if f == "" {
 					f = c08After(true, true, true)
 				}
+				if f == "" {
+					f = c08AfterTestRoot()
+				}
 				for k := 0; k < 8 && f == ""; k++ {
 					f = c08InFlight(k&1 == 1, k&2 == 2, k>>2)
 				}
@@ -642,6 +645,13 @@ func init() {
 			}
 		}
 		ctx.Res.Extra["real_ticker_failures"] = fails
+		{
+			cs := map[string]interface{}{"after_close": true, "test_root": true}
+			ctx.Case(cs, "", "after-close", "")
+			if f := c08AfterTestRoot(); f != "" {
+				ctx.Fail("after_close_everything_is_inert", f, cs, nil)
+			}
+		}
 		// Close called while a periodic pass is stalled inside one scope's delivery, with recording in between
 		for k := 0; k < 8; k++ {
 			cs := map[string]interface{}{"close_during_stalled_delivery": true, "cached": k&1 == 1, "closer": k&2 == 2, "stalled_scope": k >> 2}
